@@ -19,7 +19,8 @@ PROPERTY = "C21"
 LEVEL = "exploration"
 BUDGET = {"quick": {"runs": 400, "wall": 55}, "thorough": {"runs": 40000, "wall": 570}}
 RULE = ("Each run: 1-8 channels, payloads 0..512 KiB (size class drawn per channel; most small), random send/recv chunking, "
-        "combine-stderr switch point, exit status, 0-2 re-keys, zlib, latency 0-50 ms, all from the seed.")
+        "combine-stderr switch point, exit status, 0-2 re-keys, zlib, latency 0-50 ms, small receive windows (32-64 KiB) and "
+        "packet sizes in a third of the runs, all from the seed.")
 COMPONENTS = {"real": ["both Transports/Channels/BufferedPipes unmodified, used through the public Channel API"],
               "simulated": ["socket", "clock", "scheduling", "entropy"]}
 ASSUMPTIONS = ["stdout payload bytes are drawn from 0..127 and stderr bytes from 128..255 on combining channels so that a merged stream can be split again"]
@@ -46,10 +47,17 @@ def scenario(sim):
     rekeys = (0, 0, 1, 2)[sim.choose(4)]
     compress = sim.choose(3) == 0
     nchan = (1, 1, 2, 3, 5, 8)[sim.choose(6)]
-    w = Workload(sim, latency=lat, rekeys=rekeys, compress=compress)
+    # small receive windows / packet sizes in a third of the runs: sends are then cut short by the window and
+    # sendall has to come back for the rest (both directions)
+    small = sim.choose(3) == 0
+    server_kw = None
+    if small:
+        server_kw = {"default_window_size": (32768, 40000, 65536)[sim.choose(3)],
+                     "default_max_packet_size": (4096, 32768)[sim.choose(2)]}
+    w = Workload(sim, latency=lat, rekeys=rekeys, compress=compress, server_kw=server_kw)
     w.connect()
     big_budget = 600000
-    desc = {"channels": [], "latency": lat, "rekeys": rekeys, "zlib": compress}
+    desc = {"channels": [], "latency": lat, "rekeys": rekeys, "zlib": compress, "small_windows": server_kw}
     for i in range(nchan):
         sp = ChanSpec()
         n1, n2, n3 = size(sim), size(sim), size(sim)
@@ -57,12 +65,17 @@ def scenario(sim):
             n1, n2, n3 = n1 % 20000, n2 % 20000, n3 % 20000
         big_budget -= n1 + n2 + n3
         combine = sim.choose(3) == 0
+        if small and combine:
+            # the combining reader polls with a 50 ms channel timeout, which also governs a writer on the same
+            # channel; with a small peer window that writer would time out legitimately
+            n1 = 0
         sp.c2s = sim.payload.randbytes(n1)
         if combine:
             sp.s2c_out = alphabet(sim, n2, 0, 128)
             sp.s2c_err = alphabet(sim, n3, 128, 256)
             sp.combine_at = sim.choose(n3 + 1) if n3 else 0
-            if sim.choose(4) == 0 and n2 + n3 < 1500000:
+            # (only when everything fits into the receive window: the client does not read before the EOF)
+            if sim.choose(4) == 0 and n2 + n3 < (16000 if small else 1500000):
                 sp.combine_at = -1        # switch combining on only after the peer's EOF has been processed
                 sp.exit_status = None
         else:
@@ -70,6 +83,9 @@ def scenario(sim):
             sp.s2c_err = sim.payload.randbytes(n3)
         if sim.choose(2) and sp.combine_at != -1:
             sp.exit_status = (0, 1, 127, 255, 2 ** 31 - 1)[sim.choose(5)]
+        if small and sim.choose(2):
+            sp.window = (32768, 40000, 65536)[sim.choose(3)]
+            sp.max_packet = (None, 4096, 32768)[sim.choose(3)]
         w.open(sp)
         desc["channels"].append({"c2s": n1, "s2c_out": n2, "s2c_err": n3, "combine_at": sp.combine_at, "exit": sp.exit_status})
     w.start_traffic()
